@@ -286,7 +286,11 @@ class Engine:
 
     def as_sym(self, v: Val) -> Val:
         if isinstance(v.shape, ConcS):
+            if isinstance(v.d, IsliceObj):
+                return self.islice_to_seq(v.d)
             return self.lift(v.d)
+        if isinstance(v.shape, V.ViewS):
+            return V.view_to_seq(v)
         return v
 
     # ------------------------------------------------------------------ expressions
